@@ -29,7 +29,7 @@ fn describe_conn(w: &World, ei: usize, ch: usize) -> String {
     format!("[{ei}/{ch} {} lost={:?} drained_events={} local_close={:?}]", p.state, c.app.lost, c.drained_events, c.local_close_at)
 }
 
-fn case(seed: u64, lane: Lane, trace: bool) -> CaseOut {
+pub fn case(seed: u64, lane: Lane, trace: bool) -> CaseOut {
     let mut r = Rng::new(seed ^ 0xC08);
     let mut k = Knobs::default();
     k.lane = lane;
@@ -81,8 +81,19 @@ fn case(seed: u64, lane: Lane, trace: bool) -> CaseOut {
     let prefix_steps = *r.pick(&[0u64, 1, 2, 3, 4, 5, 6, 8, 10, 15, 30, 80, 300]);
     let _ = w.run(prefix_steps, 60_000_000_000, |_| false);
     let close_at = w.now;
-    let code = r.below(1 << 20) as u32;
-    let rl = r.usize(20);
+    // error codes of every varint size; reasons short, around one packet, and far beyond
+    let code = match r.below(4) {
+        0 => r.below(64),
+        1 => 64 + r.below(16320),
+        2 => 16384 + r.below(1 << 20),
+        _ => (1 << 30) + r.below(1 << 30),
+    } as u32;
+    let rl = match r.below(8) {
+        0 => 1000 + r.usize(600),
+        1 => 2000 + r.usize(3000),
+        2 => 100 + r.usize(400),
+        _ => r.usize(20),
+    };
     let reason: Vec<u8> = r.bytes(rl);
     let stop_faults_at_close = r.chance(70);
     if stop_faults_at_close {
@@ -132,11 +143,15 @@ fn case(seed: u64, lane: Lane, trace: bool) -> CaseOut {
             }
             // (2) every connection ends drained exactly once when its timers could run
             if matches!(end, RunEnd::Done | RunEnd::Quiescent) {
-                let must_end = closed_locally || peer_closed_at.is_some() || (peer_vanished && (c.tcfg.idle_ms.is_some() || w.eps[peer_ep].spec.server.as_ref().map_or(false, |s| s.tcfg.idle_ms.is_some())));
+                // a peer's close that was lost on the way (the closer only repeats it while it is
+                // closing) ends this side through its idle timeout, if it has one
+                let has_idle = c.c.verif_probe().idle_timeout.is_some() || c.tcfg.idle_ms.is_some() || w.eps[peer_ep].spec.server.as_ref().map_or(false, |s| s.tcfg.idle_ms.is_some());
+                let must_end = closed_locally || c.app.lost_count > 0 || ((peer_closed_at.is_some() || peer_vanished) && has_idle);
                 // (connections created after the ending was applied are zombies born from delayed
                 // duplicates of the client's first Initial)
                 if must_end && c.created_ns <= close_at && !c.c.is_drained() {
-                    msgs.push(format!("{me}: never drained although the connection was closed / its peer vanished with an idle timeout"));
+                    let p = c.c.verif_probe();
+                    msgs.push(format!("{me}: never drained although the connection was closed / its peer vanished with an idle timeout (idle config local {:?}, negotiated {:?}, timers {:?}, path validated {}, sent {} recvd {})", c.tcfg.idle_ms, p.idle_timeout, p.timers.iter().map(|t| t.0).collect::<Vec<_>>(), p.path_validated, p.path_total_sent, p.path_total_recvd));
                 }
                 if c.c.is_drained() {
                     cnt.inc("c08.drained_conns");
@@ -181,8 +196,25 @@ fn case(seed: u64, lane: Lane, trace: bool) -> CaseOut {
                     let (exp_code, exp_reason) = peer_cm.and_then(|m| m.local_close.clone()).map(|(_, c, r)| (c, r)).unwrap_or((0, vec![]));
                     let exact = format!("ApplicationClosed(ApplicationClose {{ error_code: {exp_code}, reason: {:?} }})", bytes::Bytes::from(exp_reason.clone()));
                     let got = c.app.lost.first().cloned();
+                    // a reason that does not fit the closing packet is cut: the receiver must see a
+                    // prefix of it (at least 900 bytes: every path here carries 1200-byte datagrams)
+                    let cut_ok = |g: &str| -> bool {
+                        let head = format!("ApplicationClosed(ApplicationClose {{ error_code: {exp_code}, reason: b\"");
+                        let full = format!("{:?}", bytes::Bytes::from(exp_reason.clone()));
+                        let full_inner = &full[2..full.len() - 1];
+                        exp_reason.len() > 900
+                            && g.starts_with(&head)
+                            && g.ends_with("\" })")
+                            && g.len() >= head.len() + 4
+                            && full_inner.starts_with(&g[head.len()..g.len() - 4])
+                            && g.len() - head.len() - 4 >= 900
+                    };
                     let ok = match &got {
                         Some(g) if *g == exact => true,
+                        Some(g) if cut_ok(g) => {
+                            cnt.inc("c08.long_reason_truncated");
+                            true
+                        }
                         // the closer had to use an Initial/Handshake packet: generic APPLICATION_ERROR
                         Some(g) if early && g.contains("ConnectionClosed") && g.contains("APPLICATION_ERROR") => true,
                         // the connection never existed on this side (close before the server accepted): nothing to report
